@@ -639,6 +639,40 @@ let hmm_inst (c : case) : HmmDefs.state inst =
     pctag = simple_pctag (fun st -> st.th);
     nm }
 
+(* ---------------------------------------------------------------- vyukov_hash_map with several buckets and grow (C10) *)
+let vhmgrow_inst (c : case) : VhmGrowDefs.state inst =
+  let open VhmGrowDefs in
+  let cap0 = int_of_string (cfg_get c "cap" "1") in
+  let cap = let rec p2 n = if n >= cap0 then n else p2 (2 * n) in n_of_int (p2 1) in   (* utils::next_power_of_two *)
+  let hash = match cfg_get c "hash" "id" with
+    | "const" -> (fun _ -> n_of_int 7)
+    | "mod2" -> (fun k -> n_of_int (int_of_n k mod 2))
+    | "mod4" -> (fun k -> n_of_int (int_of_n k mod 4))
+    | _ -> (fun k -> k) in
+  let sn r i = string_of_n (List.nth r i) in
+  let nm = { named = (fun _ -> "?");
+    opname = (function 0 -> "ins" | 1 -> "getins" | 2 -> "del" | 3 -> "ext" | 4 -> "get" | _ -> "?");
+    resname = vhm_resname sn;
+    note = (fun code args -> match code, args with 120, [h] -> Some ("RETIRE h" ^ string_of_n h ^ "+0") | _ -> None) } in
+  let stp st a = VhmGrowDefs.step hash st a in
+  let init =
+    let keys = List.filter (fun s -> s <> "") (String.split_on_char '.' (cfg_get c "init" "")) in
+    List.fold_left (fun st ks ->
+      let k = n_of_string ks in let v = n_of_int (10 * int_of_string ks) in
+      let st = ref (match stp st (Start (O, OIns (k, v))) with Some (s', _) -> s' | None -> st) in
+      let fuel = ref 100000 in
+      while (match !st.th O with Idle -> false | _ -> true) && !fuel > 0 do
+        decr fuel; (match stp !st (Step O) with Some (s', _) -> st := s' | None -> fuel := 0) done; !st) (VhmGrowDefs.init cap) keys in
+  { init;
+    idle = (fun st t -> match st.th (nat_of_int t) with Idle -> true | _ -> false);
+    start = (fun st t (name, args) ->
+      let k = match args with v :: _ -> n_of_string v | [] -> n_of_int 0 in
+      let v = match args with _ :: v :: _ -> n_of_string v | [ks] -> n_of_int (10 * int_of_string ks) | _ -> n_of_int 0 in
+      let o = match name with "ins" -> OIns (k, v) | "getins" -> OGetIns (k, v) | "del" -> ODel k | "ext" -> OExt k | _ -> OGet k in
+      match stp st (Start (nat_of_int t, o)) with Some (s', _) -> Some s' | None -> None);
+    step = (fun st t _ -> stp st (Step (nat_of_int t)));
+    pctag = simple_pctag (fun st -> st.th); nm }
+
 let () =
   let model = Sys.argv.(1) and cmd = Sys.argv.(2) and path = Sys.argv.(3) in
   let c = parse_case path in
@@ -682,4 +716,5 @@ let () =
   | "kfq" -> go (kfq_inst c)
   | "he" -> go (he_inst c)
   | "hmm" -> go (hmm_inst c)
+  | "vhmgrow" -> go (vhmgrow_inst c)
   | _ -> prerr_endline ("unknown model " ^ model); exit 2
